@@ -105,6 +105,7 @@ class Roles:
         self.owned: set[str] = set()  # array variables (re)defined by malloc/realloc in this kernel
         self.cap_of: dict[str, str] = {}  # capacity variable -> array
         self.defs: dict[str, list] = {}  # var -> list of defining expressions
+        self.parent_expr: dict[str, object] = {}  # cursor/end var -> parent position expression
         for p in fn.parameters:
             self._set(p.name.name, ("tensor", p.name.name))
         stmts = [s for s, _ in simple_statements(fn.body)]
@@ -135,6 +136,11 @@ class Roles:
 
     def _set(self, v, r):
         self.role[v] = r
+
+    def _parent(self, v, e):
+        if v in self.parent_expr and self.parent_expr[v] != e:
+            self.conflicts.add(v)
+        self.parent_expr[v] = e
 
     def _derive(self, v, e, s):
         IR = kir.IR
@@ -177,10 +183,13 @@ class Roles:
                 if ar and ar[0] == "pos":
                     idx = e.index
                     if isinstance(idx, IR.Add) and is_int(idx.right, 1):
+                        self._parent(v, idx.left)
                         return ("end", ar[1], ar[2], pp(idx.left))
                     if is_int(idx, 1) and ar[2] == 0:
+                        self._parent(v, IR.IntegerLiteral(0))
                         return ("end", ar[1], ar[2], "0")
                     if isinstance(idx, IR.Variable) or is_int(idx, 0):
+                        self._parent(v, idx)
                         return ("cursor", ar[1], ar[2], pp(idx))
                 if ar and ar[0] == "crd" and isinstance(e.index, IR.Variable):
                     return ("coord", ar[1], ar[2], e.index.name)
